@@ -141,3 +141,59 @@ func specC18(tier string) *SeqSpec {
 	}
 	return s
 }
+
+// C18, long operands: strings whose lengths sit around every block size an implementation may
+// process at a time (8, 16, 32, 64 bytes), in pairs and triples of different lengths - BITOP,
+// BITCOUNT, BITPOS and BITFIELD GET must give the bit-array answer whatever the length (a seeded
+// change of wave 5 combined whole 32-byte blocks and forgot the bytes between the last whole block
+// and the end of the shortest operand).
+func specC18long(tier string) *SeqSpec {
+	s := &SeqSpec{ID: "C18#long", Sessions: 1, Keys: []string{"k1", "k2", "k3", "d1"}, DBs: []int{0}}
+	pat := func(n, seed int) string {
+		b := make([]byte, n)
+		for i := range b {
+			b[i] = byte((i*37+seed*101+11)&0xff) ^ byte(i>>3)
+		}
+		return string(b)
+	}
+	lens := []int{7, 8, 9, 15, 16, 17, 31, 32, 33, 40, 63, 64, 65, 96, 100, 129}
+	if tier != "thorough" {
+		lens = []int{8, 17, 31, 32, 33, 40, 64, 65, 100}
+	}
+	for i, l1 := range lens {
+		for _, l2 := range []int{lens[(i+1)%len(lens)], lens[(i+4)%len(lens)], l1} {
+			s.Inits = append(s.Inits, []Op{c("SET", "k1", pat(l1, 1)), c("SET", "k2", pat(l2, 2)), c("SET", "k3", pat(lens[(i+2)%len(lens)], 3))})
+		}
+		// all ones / all zeroes with a single exception near the end (BITPOS has to walk the whole string)
+		ones, zeroes := []byte(string(make([]byte, l1))), make([]byte, l1)
+		for j := range ones {
+			ones[j] = 0xff
+		}
+		ones[l1-2] = 0xfb
+		zeroes[l1-1] = 0x10
+		s.Inits = append(s.Inits, []Op{c("SET", "k1", string(ones)), c("SET", "k2", string(zeroes)), c("SET", "k3", pat(l1, 4))})
+	}
+	var S []Op
+	for _, op := range []string{"AND", "OR", "XOR"} {
+		for _, src := range [][]string{{"k1", "k2"}, {"k2", "k1"}, {"k1", "k2", "k3"}, {"k3", "k1", "k2"}, {"k1", "k1"}, {"k1", "nokey"}, {"k1", "k2", "nokey"}, {"k1"}} {
+			for _, dst := range []string{"d1", "k1", "k2"} {
+				S = append(S, Op{Args: append([]string{"BITOP", op, dst}, src...)})
+			}
+		}
+	}
+	S = append(S, c("BITOP", "NOT", "d1", "k1"), c("BITOP", "NOT", "k1", "k1"), c("BITOP", "NOT", "d1", "k2"))
+	edges := []string{"0", "1", "7", "8", "9", "15", "16", "17", "31", "32", "33", "63", "64", "65", "-1", "-2", "-8", "-9", "-33"}
+	for _, k := range []string{"k1", "k2"} {
+		S = append(S, c("BITCOUNT", k), c("BITPOS", k, "0"), c("BITPOS", k, "1"))
+		for _, a := range edges {
+			S = append(S, c("BITCOUNT", k, a, "-1"), c("BITCOUNT", k, "0", a), c("BITPOS", k, "0", a), c("BITPOS", k, "1", a), c("BITPOS", k, "1", a, "-1", "BIT"), c("BITPOS", k, "0", a, "-2", "BIT"), c("BITCOUNT", k, a, "-3", "BIT"))
+			S = append(S, c("GETRANGE", k, a, "-1"), c("BITFIELD", k, "GET", "u63", a), c("BITFIELD", k, "GET", "i64", "#"+a))
+		}
+		for _, bit := range []string{"63", "64", "255", "256", "257", "511", "512", "799", "800", "1031", "1032"} {
+			S = append(S, c("GETBIT", k, bit), c("SETBIT", k, bit, "1"), c("SETBIT", k, bit, "0"), c("BITFIELD", k, "SET", "u8", bit, "165"), c("BITFIELD", k, "INCRBY", "i16", bit, "-3"))
+		}
+	}
+	s.Sweep = S
+	s.Depth = 0
+	return s
+}
